@@ -20,7 +20,7 @@ from rules_struct import rawlock_impl_fns, HL_SEM, _floc
 
 RETRY = "collection::RetryingLockCollection"
 QUICK_N = 3
-THOROUGH_N = 5
+THOROUGH_N = 8
 LID = "LIST"
 RETRIES = 2
 
@@ -177,11 +177,12 @@ def _run_all(ctx, tier_n):
             ll = None
             nn = n
             if label.startswith("Retrying::raw_write") or label.startswith("Retrying::raw_read"):
-                if n > 5:
+                if n > 6:
                     continue
-                ll = (n + 2) * (retries() + 1)      # that many full retry rounds, then the path is cut
+                r = retries() if n <= 4 else min(retries(), RETRIES + 1)    # the deepest retry bound only for lists of <= 4
+                ll = (n + 2) * (r + 1)      # that many full retry rounds, then the path is cut
             paths, err = explore(ctx, f, nn, mode, kind, faults=tier_faults(), loop_limit=ll, preheld=pre,
-                                 acq_limit=(retries() + 1) if ll else None)
+                                 acq_limit=(r + 1) if ll else None)
             out[(label, n)] = (f, kind, mode, paths, err)
     return out
 
@@ -194,12 +195,12 @@ def tier_n():
 def retries():
     """retry rounds explored for the retrying collection: 2 (quick), 3 (thorough)"""
     import os
-    return RETRIES + 1 if os.environ.get("HLV_TIER") == "thorough" else RETRIES
+    return RETRIES + 2 if os.environ.get("HLV_TIER") == "thorough" else RETRIES
 
 
 def tier_faults():
     import os
-    return 2 if os.environ.get("HLV_TIER") == "thorough" else 1
+    return 3 if os.environ.get("HLV_TIER") == "thorough" else 1
 
 
 def _viol(res, rule, f, site, msg):
